@@ -134,19 +134,31 @@ class Tag(HostModel):
         return out[:limit] if limit else out
 
     def select(self, selector, *a, **k):
-        """soupsieve, one form only: type[attr|=value] (the value a CSS identifier or a quoted string)"""
+        """soupsieve, one form only: type[attr OP value] with the six attribute operators of CSS (= ~= |= ^= $= *=), the value
+        a CSS identifier or a quoted string"""
         if a or k:
             raise ModelError("select(<options>) is outside the model")
-        m = re.fullmatch(r"\s*([A-Za-z][A-Za-z0-9]*)\[\s*([A-Za-z_][A-Za-z0-9_-]*)\s*\|=\s*(?:\"([^\"\\\\]*)\"|'([^'\\\\]*)'|(-?[A-Za-z_][A-Za-z0-9_-]*))\s*\]\s*", selector) \
+        m = re.fullmatch(r"\s*([A-Za-z][A-Za-z0-9]*)\[\s*([A-Za-z_][A-Za-z0-9_-]*)\s*([~|^$*]?=)\s*"
+                         r"(?:\"([^\"\\\\]*)\"|'([^'\\\\]*)'|(-?[A-Za-z_][A-Za-z0-9_-]*))\s*\]\s*", selector) \
             if isinstance(selector, str) else None
         if not m:
-            raise ModelError(f"select({selector!r}) is outside the model (type[attr|=value] only)")
-        name, attr = m.group(1).lower(), m.group(2)
-        val = next(g for g in m.groups()[2:] if g is not None)
+            raise ModelError(f"select({selector!r}) is outside the model (type[attr OP value] only)")
+        name, attr, op = m.group(1).lower(), m.group(2), m.group(3)
+        val = next(g for g in m.groups()[3:] if g is not None)
+        tests = {
+            "=": lambda h: h == val,
+            "~=": lambda h: bool(val) and not re.search(r"\s", val) and val in h.split(),
+            "|=": lambda h: h == val or h.startswith(val + "-"),
+            "^=": lambda h: bool(val) and h.startswith(val),
+            "$=": lambda h: bool(val) and h.endswith(val),
+            "*=": lambda h: bool(val) and val in h,
+        }
         out = []
         for t in self._descendants():
             have = t.attrs.get(attr)
-            if t.name == name and isinstance(have, str) and (have == val or have.startswith(val + "-")):
+            if isinstance(have, list):
+                have = " ".join(have)
+            if t.name == name and isinstance(have, str) and tests[op](have):
                 out.append(t)
         return out
 
